@@ -1,10 +1,9 @@
 CONSTANT P = 17
 CONSTANT N = 2
-CONSTANT MUT = "none"
-CONSTANT DIDS = {1, 3}
+CONSTANT MUT = "first_group_only"
+CONSTANT DIDS = {4}
 CONSTANT BETAS = {2}
 INIT Init
 NEXT Next
 INVARIANT Theorem
-INVARIANT Emit
 CHECK_DEADLOCK FALSE
